@@ -21,6 +21,7 @@ class Stats:
         self.shapes = set()
         self.by_result = {'sat': 0, 'unsat': 0, 'unknown': 0}
         self.cross = {'checked': 0, 'agree': 0, 'other_unknown': 0, 'disagree': 0}
+        self.vacuity_checked = 0
 
 
 STATS = Stats()
@@ -772,7 +773,10 @@ def solve(constraints, timeout_ms=20000, want_model=True, tactic=None) -> Result
         s.add(L.defs[n])
         n += 1
     t0 = time.time()
-    r = s.check()
+    try:
+        r = s.check()
+    except z3.Z3Exception:
+        r = z3.unknown  # interrupted by the job watchdog (or a solver error): inconclusive
     dt = time.time() - t0
     STATS.queries += 1
     STATS.solver_time += dt
@@ -1039,6 +1043,10 @@ def explore(fn, max_paths=256, catch=(Exception,)):
 # =========================================================================== obligations
 
 
+_VACUITY = os.environ.get('VERIF_VACUITY', '1') == '1'
+_VAC_CACHE: dict = {}
+
+
 class Obligation:
     def __init__(self, name, status, detail='', model=None, t=0.0, sample=None):
         self.name = name
@@ -1062,6 +1070,20 @@ def prove(name, goal, assumptions=(), pc=(), timeout_ms=20000) -> Obligation:
     r = solve(cons, timeout_ms=timeout_ms)
     sample = f'{name}: assert !({goal!r})'[:400]
     if r.status == 'unsat':
+        # vacuity guard: the premises (assumptions + path condition) of a discharged obligation must be satisfiable;
+        # checked once per distinct premise set
+        if _VACUITY and not (goal.kind == 'const'):
+            prem = cons[:-1]
+            key = (tuple(id(b) for b in prem), len(CTX.definitions))
+            hit = _VAC_CACHE.get(key)
+            if hit is None:
+                st = solve(prem, timeout_ms=min(timeout_ms, 10000), want_model=False).status
+                _VAC_CACHE[key] = (st, prem)  # the premise objects are kept alive so that their ids stay unique
+                STATS.vacuity_checked += 1
+            else:
+                st = hit[0]
+            if st == 'unsat':
+                return Obligation(name, 'inconclusive', detail='vacuous: assumptions and path condition are unsatisfiable', t=r.t, sample=sample)
         return Obligation(name, 'discharged', t=r.t, sample=sample)
     if r.status == 'sat':
         return Obligation(name, 'violated', detail=repr(goal)[:300], model=r.model, t=r.t, sample=sample)
